@@ -7,6 +7,7 @@ import (
 	"encoding/json"
 	"errors"
 	"fmt"
+	"os"
 	"sort"
 	"strings"
 	"time"
@@ -63,6 +64,12 @@ func (e *env) reopen() error {
 // exec runs one statement (inside the explicit transaction when one is open).
 func (e *env) exec(stmt string) error {
 	e.script = append(e.script, stmt+";")
+	if p := os.Getenv("VERIF_C11_TRACE"); p != "" { // development aid: statement log that survives a crash of the child
+		if f, err := os.OpenFile(p, os.O_CREATE|os.O_APPEND|os.O_WRONLY, 0o644); err == nil {
+			fmt.Fprintf(f, "%s;\n", stmt)
+			f.Close()
+		}
+	}
 	ntx, _, err := e.eng.Exec(context.Background(), e.tx, stmt, e.params)
 	if e.tx != nil || ntx != nil {
 		e.tx = ntx // nil after COMMIT, and after an error (the engine cancels the transaction)
